@@ -102,6 +102,8 @@ def gen(rng, tier, shape=None):
                     if not any(v == w for w in vals):
                         vals.append(v)
                 s["old"] = ["coll", [(v,) + spellings(rng, v) for v in vals]]
+                if rng.random() < 0.15:
+                    s["old"].append("tuple")        # `x in snapshot((1, 2))`: a tuple display is edited like a list display
         elif role == "dict":
             if r < 0.3:
                 s["old"] = None
@@ -187,10 +189,12 @@ def gen(rng, tier, shape=None):
 def arg_src(old):
     if old is None:
         return ""
-    kind, body = old
+    kind, body = old[0], old[1]
     if kind == "leaf":
         return body[1]
     if kind == "coll":
+        if len(old) > 2 and old[2] == "tuple":
+            return "(" + ", ".join(e[1] for e in body) + ("," if len(body) == 1 else "") + ")"
         return "[" + ", ".join(e[1] for e in body) + "]"
     if kind == "dict":
         return "{" + ", ".join(f"{e[0]!r}: {e[2]}" for e in body) + "}"
@@ -200,7 +204,7 @@ def arg_src(old):
 def old_sx(old):
     if old is None:
         return "none"
-    kind, body = old
+    kind, body = old[0], old[1]
     if kind == "leaf":
         return ["leaf", val_sx(body[0]), body[2]]
     if kind == "coll":
@@ -243,6 +247,14 @@ DISTURB = [
     "[Item_(), 2] == snapshot([snapshot(1), 2, 3])",  # nested snapshot reached only while aligning
     "snapshot(1)['k'] == 1",                           # wrong kind of use
     "(Item_(), 1) == snapshot((1,))",                 # tuple alignment
+    # comparisons that hold, against arguments whose elements cannot be edited (no list / dict display)
+    "assert 1 in snapshot({1, 2})",
+    "assert 1 in snapshot(list((1, 2)))",
+    "assert 'a' in snapshot('abc')",
+    "assert 2 in snapshot([*[1, 2], 3])",
+    "assert snapshot(dict(k=1))['k'] == 1",
+    "assert snapshot({**{'a': 1}, 'k': 5})['a'] == 1",
+    "assert snapshot([5, 6])[0] == 5",
 ]
 DISTURB_DEF = """
 class Item_:
@@ -341,6 +353,8 @@ def py_final(node_src):
 
 
 def final_sx(v):
+    if isinstance(v, tuple) and not (v and v[0] == NC):
+        v = list(v)
     if isinstance(v, list):
         return ["l"] + [val_sx(e) for e in v]
     if isinstance(v, dict):
